@@ -3,6 +3,7 @@ package main
 import (
 	"fmt"
 	"go/token"
+	"go/types"
 	"os"
 	"strings"
 
@@ -282,7 +283,84 @@ func condCanonD(v ssa.Value, d int) (string, []ssa.Value) {
 			return "!" + a, append([]ssa.Value{v}, la...)
 		}
 	}
-	return v.Name(), []ssa.Value{v}
+	return uniqName(v), []ssa.Value{v}
+}
+
+// names unique across functions (the search may walk into helpers)
+var fnIDs = map[*ssa.Function]int{}
+
+func fnID(p *ssa.Function) int {
+	id, ok := fnIDs[p]
+	if !ok {
+		id = len(fnIDs) + 1
+		fnIDs[p] = id
+	}
+	return id
+}
+
+func uniqName(v ssa.Value) string {
+	p := v.Parent()
+	if p == nil {
+		return v.Name()
+	}
+	return fmt.Sprintf("%s@%d", v.Name(), fnID(p))
+}
+
+// inlinable: a module function that did not exist at the pinned commit — a helper extracted since. The search
+// walks through a plain call of such a function as if its body stood at the call ("a step moved into a helper is
+// still the step", for every rule at once): callee returns continue after the call, and a boolean result is bound
+// to what the callee returned on that path.
+func inlinable(g *ssa.Function) bool {
+	if g == nil || g.Blocks == nil || g.Pkg == nil {
+		return false
+	}
+	path := g.Pkg.Pkg.Path()
+	if !strings.HasPrefix(path+"/", Mod) || strings.HasSuffix(path, controlsPkg) {
+		return false
+	}
+	return !isPinnedFn(fnKey(g))
+}
+
+func hasInlinableCall(f *ssa.Function) bool {
+	found := false
+	allInstrs(f, func(in ssa.Instruction) {
+		if call, ok := in.(*ssa.Call); ok && inlinable(call.Call.StaticCallee()) {
+			found = true
+		}
+	})
+	return found
+}
+
+type cutFrame struct {
+	call   *ssa.Call
+	retB   *ssa.BasicBlock
+	retI   int
+	parent *cutFrame
+}
+
+func (f *cutFrame) depth() int {
+	n := 0
+	for ; f != nil; f = f.parent {
+		n++
+	}
+	return n
+}
+
+func (f *cutFrame) has(g *ssa.Function) bool {
+	for ; f != nil; f = f.parent {
+		if f.call.Call.StaticCallee() == g {
+			return true
+		}
+	}
+	return false
+}
+
+func (f *cutFrame) sig() string {
+	s := ""
+	for ; f != nil; f = f.parent {
+		s += fmt.Sprintf("%p/", f.call)
+	}
+	return s
 }
 
 var condInfoMemo = map[*ssa.Function]*condInfo{}
@@ -307,6 +385,24 @@ func condInfoOf(f *ssa.Function) *condInfo {
 		}
 	}
 	for _, b := range f.Blocks {
+		// a boolean phi that is returned: a caller that walks into this function binds its result to the operand
+		if len(b.Instrs) > 0 {
+			if ret, ok := b.Instrs[len(b.Instrs)-1].(*ssa.Return); ok {
+				for _, r := range ret.Results {
+					// a nil test of a value that is returned: the caller's own nil test of the result has the same outcome
+					for _, cmp := range nilTestsOf(r) {
+						k, _ := condCanon(cmp)
+						ci.multi[k] = true
+					}
+					rb, _ := stripNot(r)
+					if p, ok := rb.(*ssa.Phi); ok {
+						if bt, isB := p.Type().Underlying().(*types.Basic); isB && bt.Kind() == types.Bool {
+							addPhi(p)
+						}
+					}
+				}
+			}
+		}
 		i := ifOf(b)
 		if i == nil {
 			continue
@@ -316,6 +412,15 @@ func condInfoOf(f *ssa.Function) *condInfo {
 		count[k]++
 		if p, ok := base.(*ssa.Phi); ok {
 			addPhi(p)
+		}
+		// `x != nil` / `x == y` on a phi x (an error assigned on two branches, then tested once): the path knows
+		// which operand x stands for
+		if bo, ok := base.(*ssa.BinOp); ok && (bo.Op == token.EQL || bo.Op == token.NEQ) {
+			for _, o := range []ssa.Value{bo.X, bo.Y} {
+				if p, ok := o.(*ssa.Phi); ok {
+					ci.phis[p] = true
+				}
+			}
 		}
 	}
 	for k, n := range count {
@@ -364,7 +469,7 @@ func (e psEnv) sig() string {
 		ks = append(ks, fmt.Sprintf("%s=%v", k, v.val))
 	}
 	for k, v := range e.phiOp {
-		ks = append(ks, fmt.Sprintf("%s:%s", k.Name(), v.Name()))
+		ks = append(ks, fmt.Sprintf("%s:%s", uniqName(k), uniqName(v)))
 	}
 	sortStrings(ks)
 	return strings.Join(ks, ",")
@@ -384,14 +489,24 @@ func (q *Cut) Run(c *Ctx) (string, int) {
 	if len(q.Fn.Blocks) == 0 {
 		return "", 0
 	}
+	if !inlinable(q.Fn) && !scanBusy {
+		scanRoot = q.Fn
+	}
 	ci := condInfoOf(q.Fn)
-	if len(ci.multi) == 0 && len(ci.phis) == 0 {
+	if len(ci.multi) == 0 && len(ci.phis) == 0 && !hasInlinableCall(q.Fn) {
 		return q.runInsensitive(c)
 	}
+	ciOf := func(fn *ssa.Function) *condInfo {
+		if fn == nil {
+			return ci
+		}
+		return condInfoOf(fn)
+	}
 	type item struct {
-		l    loc
-		e    psEnv
-		prev *cutItem
+		l     loc
+		e     psEnv
+		prev  *cutItem
+		stack *cutFrame
 	}
 	fromSet := map[ssa.Instruction]bool{}
 	for _, f := range q.From {
@@ -401,8 +516,16 @@ func (q *Cut) Run(c *Ctx) (string, int) {
 	seen := map[string]bool{}
 	budget := 60000
 	overflow := false
-	push := func(b *ssa.BasicBlock, i int, e psEnv, prev *cutItem) {
-		k := fmt.Sprintf("%d|%d|%s", b.Index, i, e.sig())
+	var curStack *cutFrame // the frame stack of the item being expanded (push inherits it unless told otherwise)
+	var push func(b *ssa.BasicBlock, i int, e psEnv, prev *cutItem)
+	pushS := func(b *ssa.BasicBlock, i int, e psEnv, prev *cutItem, st *cutFrame) {
+		old := curStack
+		curStack = st
+		push(b, i, e, prev)
+		curStack = old
+	}
+	push = func(b *ssa.BasicBlock, i int, e psEnv, prev *cutItem) {
+		k := fmt.Sprintf("%d|%d|%d|%s|%s", fnID(b.Parent()), b.Index, i, curStack.sig(), e.sig())
 		if seen[k] {
 			return
 		}
@@ -411,7 +534,7 @@ func (q *Cut) Run(c *Ctx) (string, int) {
 			return
 		}
 		seen[k] = true
-		work = append(work, &item{loc{b, i}, e, &cutItem{l: loc{b, i}, prev: prev}})
+		work = append(work, &item{loc{b, i}, e, &cutItem{l: loc{b, i}, prev: prev}, curStack})
 	}
 	// truth of a boolean value on the current path
 	var truth func(v ssa.Value, e psEnv, d int) (bool, bool)
@@ -441,6 +564,7 @@ func (q *Cut) Run(c *Ctx) (string, int) {
 	learn := func(e psEnv, v ssa.Value, t bool) {
 		base, neg := stripNot(v)
 		t = t != neg
+		ci := ciOf(base.Parent())
 		if k, leaves := condCanon(base); ci.multi[k] {
 			e.known[k] = knownCond{t, leaves}
 		}
@@ -468,7 +592,7 @@ func (q *Cut) Run(c *Ctx) (string, int) {
 			if !ok {
 				break
 			}
-			if !ci.phis[p] || idx < 0 || idx >= len(p.Edges) {
+			if !ciOf(to.Parent()).phis[p] || idx < 0 || idx >= len(p.Edges) {
 				continue
 			}
 			op := p.Edges[idx]
@@ -504,6 +628,28 @@ func (q *Cut) Run(c *Ctx) (string, int) {
 			return false
 		}
 		base, neg := stripNot(i.Cond)
+		if bo, isB := base.(*ssa.BinOp); isB && (bo.Op == token.EQL || bo.Op == token.NEQ) {
+			// a comparison of a (non-boolean) phi: evaluate the predicate with the phi standing for its operand
+			var set []*ssa.Phi
+			for _, o := range []ssa.Value{bo.X, bo.Y} {
+				if p, isPhi := o.(*ssa.Phi); isPhi {
+					if op, bound := e.phiOp[p]; bound && op != ssa.Value(p) {
+						if _, already := valueOverride[p]; !already {
+							valueOverride[p] = op
+							set = append(set, p)
+						}
+					}
+				}
+			}
+			if len(set) > 0 {
+				r := pred(b, s)
+				for _, p := range set {
+					delete(valueOverride, p)
+				}
+				return r
+			}
+			return false
+		}
 		p, ok := base.(*ssa.Phi)
 		if !ok {
 			return false
@@ -570,8 +716,44 @@ func (q *Cut) Run(c *Ctx) (string, int) {
 			}
 		}
 	}
+	// a start point inside a helper the search walks into (found by the deep findInstrs): begin there with the
+	// frames of the call(s) that lead to it, so that the helper's return continues in q.Fn
+	framesTo := func(target *ssa.Function) []*cutFrame {
+		var out []*cutFrame
+		var walk func(g *ssa.Function, parent *cutFrame, depth int)
+		walk = func(g *ssa.Function, parent *cutFrame, depth int) {
+			for _, b := range g.Blocks {
+				for i, in := range b.Instrs {
+					call, ok := in.(*ssa.Call)
+					if !ok {
+						continue
+					}
+					h := call.Call.StaticCallee()
+					if !inlinable(h) || parent.has(h) || h == q.Fn {
+						continue
+					}
+					fr := &cutFrame{call, b, i + 1, parent}
+					if h == target {
+						out = append(out, fr)
+					} else if depth < 1 {
+						walk(h, fr, depth+1)
+					}
+				}
+			}
+		}
+		walk(q.Fn, nil, 0)
+		return out
+	}
 	for _, f := range q.From {
 		e := start.clone()
+		if f.Parent() != q.Fn {
+			if frs := framesTo(f.Parent()); len(frs) > 0 {
+				for _, fr := range frs {
+					pushS(f.Block(), instrIndex(f)+1, e, nil, fr)
+				}
+				continue
+			}
+		}
 		dominating(e, f.Block())
 		push(f.Block(), instrIndex(f)+1, e, nil)
 	}
@@ -582,16 +764,99 @@ func (q *Cut) Run(c *Ctx) (string, int) {
 		if i := ifOf(fe.B); i != nil {
 			learn(e, i.Cond, fe.Succ == 0)
 		}
+		if fe.B.Parent() != q.Fn {
+			if frs := framesTo(fe.B.Parent()); len(frs) > 0 {
+				for _, fr := range frs {
+					pushS(t, 0, enter(fe.B, t, e), nil, fr)
+				}
+				continue
+			}
+		}
 		push(t, 0, enter(fe.B, t, e), nil)
 	}
 	examined := 0
+	savedArgs := frameArgs
+	defer func() { frameArgs = savedArgs }()
 	for len(work) > 0 && !overflow {
 		it := work[0]
 		work = work[1:]
 		b := it.l.b
+		curStack = it.stack
+		// predicates evaluated below see the helper's parameters as the call's arguments
+		frameArgs = savedArgs
+		if it.stack != nil {
+			frameArgs = map[*ssa.Parameter]ssa.Value{}
+			for k, v := range savedArgs {
+				frameArgs[k] = v
+			}
+			for fr := it.stack; fr != nil; fr = fr.parent {
+				if g := fr.call.Call.StaticCallee(); g != nil {
+					for i, p := range g.Params {
+						if i < len(fr.call.Call.Args) {
+							frameArgs[p] = fr.call.Call.Args[i]
+						}
+					}
+				}
+			}
+		}
 		stopped := false
 		for i := it.l.i; i < len(b.Instrs); i++ {
 			in := b.Instrs[i]
+			if ret, isRet := in.(*ssa.Return); isRet && it.stack != nil {
+				// the end of a helper the search walked into: go on after the call, with its boolean results bound to
+				// what was returned on this path
+				fr := it.stack
+				ne := it.e.clone()
+				bind := func(v ssa.Value, res ssa.Value) {
+					if bt, isB := v.Type().Underlying().(*types.Basic); !isB || bt.Kind() != types.Bool {
+						return
+					}
+					// (a result spilled through a cell by `defer`: what was stored for this return)
+					if t, ok := truth(strip(res), it.e, 0); ok {
+						k, _ := condCanon(v)
+						ne.known[k] = knownCond{t, []ssa.Value{fr.call}}
+					}
+				}
+				// ... and the nil-ness of a returned error / pointer, when the path knows it, to the caller's nil tests
+				bindNil := func(v ssa.Value, res ssa.Value) {
+					var isNil, known bool
+					switch {
+					case isNilConst(strip(res)):
+						isNil, known = true, true
+					case !errMayBeNil(res, 0) && types.Identical(res.Type(), types.Universe.Lookup("error").Type()):
+						isNil, known = false, true
+					default:
+						for _, cmp := range nilTestsOf(res) {
+							k, _ := condCanon(cmp)
+							if kc, ok := it.e.known[k]; ok {
+								isNil, known = kc.val == (cmp.Op == token.EQL), true
+							}
+						}
+					}
+					if !known {
+						return
+					}
+					for _, cmp := range nilTestsOf(v) {
+						k, _ := condCanon(cmp)
+						// (valid until the call is executed again)
+						ne.known[k] = knownCond{(cmp.Op == token.EQL) == isNil, []ssa.Value{fr.call}}
+					}
+				}
+				if len(ret.Results) == 1 {
+					bind(fr.call, ret.Results[0])
+					bindNil(fr.call, ret.Results[0])
+				} else if refs := fr.call.Referrers(); refs != nil {
+					for _, r := range *refs {
+						if ex, ok := r.(*ssa.Extract); ok && ex.Index < len(ret.Results) {
+							bind(ex, ret.Results[ex.Index])
+							bindNil(ex, ret.Results[ex.Index])
+						}
+					}
+				}
+				pushS(fr.retB, fr.retI, ne, it.prev, fr.parent)
+				stopped = true
+				break
+			}
 			// a value that is computed again (loop iteration) is a new run-time value: forget the old one
 			if v, isV := in.(ssa.Value); isV {
 				stale := false
@@ -639,6 +904,13 @@ func (q *Cut) Run(c *Ctx) (string, int) {
 				stopped = true
 				break
 			}
+			if call, isCall := in.(*ssa.Call); isCall && it.stack.depth() < 2 {
+				if g := call.Call.StaticCallee(); inlinable(g) && !it.stack.has(g) && g != q.Fn {
+					pushS(g.Blocks[0], 0, it.e, it.prev, &cutFrame{call, b, i + 1, it.stack})
+					stopped = true
+					break
+				}
+			}
 		}
 		if stopped {
 			continue
@@ -664,7 +936,7 @@ func (q *Cut) Run(c *Ctx) (string, int) {
 			if ifi != nil {
 				base, _ := stripNot(ifi.Cond)
 				_, isPhi := base.(*ssa.Phi)
-				if k, _ := condCanon(base); ci.multi[k] || isPhi {
+				if k, _ := condCanon(base); ciOf(b.Parent()).multi[k] || isPhi {
 					ne = it.e.clone()
 					learn(ne, ifi.Cond, s == 0)
 				}
@@ -684,4 +956,39 @@ func sortStrings(s []string) {
 			s[j], s[j-1] = s[j-1], s[j]
 		}
 	}
+}
+
+// nilTestsOf: the comparisons of v with nil in v's function (`v != nil`, `nil == v`).
+func nilTestsOf(v ssa.Value) []*ssa.BinOp {
+	refs := v.Referrers()
+	if refs == nil {
+		return nil
+	}
+	var out []*ssa.BinOp
+	for _, r := range *refs {
+		bo, ok := r.(*ssa.BinOp)
+		if !ok || (bo.Op != token.EQL && bo.Op != token.NEQ) {
+			continue
+		}
+		if (bo.X == v && isNilConst(bo.Y)) || (bo.Y == v && isNilConst(bo.X)) {
+			out = append(out, bo)
+		}
+	}
+	// through a local cell: `*cell = v; t = *cell; t != nil` (a variable captured by a closure, a named result)
+	for _, r := range *refs {
+		st, ok := r.(*ssa.Store)
+		if !ok || st.Val != v {
+			continue
+		}
+		al, ok := st.Addr.(*ssa.Alloc)
+		if !ok {
+			continue
+		}
+		for _, r2 := range *al.Referrers() {
+			if ld, ok := r2.(*ssa.UnOp); ok && ld.Op == token.MUL && loadedValue(ld) == v {
+				out = append(out, nilTestsOf(ld)...)
+			}
+		}
+	}
+	return out
 }
